@@ -310,4 +310,211 @@ class _AppendOrder(Contract):
 for _cn in ('PeptidePoolSplitter', 'PeptidePoolSummarizer'):
     register(type(f'AppendOrder_{_cn}', (_AppendOrder,), dict(cls_name=_cn)))
 
+# ----------------------------------------------------------------------------
+# the level numbers of a source set (what VariantSourceSet.__gt__ compares)
+# ----------------------------------------------------------------------------
+class _Levels18:
+    """list(source_int): only sorted afterwards"""
+    def __init__(self, src):
+        self.src, self.sorted = src, False
+
+    def sym_method(self, I, name, a, k):
+        if name == 'sort':
+            self.sorted = not (a or k)
+            return None
+        raise Unsupported(f'levels.{name}')
+
+
+@register
+class ToInt(Contract):
+    """to_int() (default sort=True) returns, sorted ascending, the level number of the set as a whole when the order names it as one entry
+    (a group / combination), otherwise the level numbers of all its members - the assumption the contract of __gt__ rests on"""
+    path, qualname, props = 'moPepGen/aa/VariantPeptideLabel.py', 'VariantSourceSet.to_int', ('C18',)
+    assumptions = ('assumed: distinct members have distinct level numbers (the set comprehension is read as a list); list.sort() sorts integers ascending; '
+                   'every member of the set is a source the order knows (a member without a level raises KeyError: not modelled)',)
+
+    def setup(self, I):
+        e = I.e
+        st = types.SimpleNamespace(made=[])
+        st.n = e.int('n_members')
+        e.assume(st.n >= 0)
+        st.Lv = z3.Function('level_of_member', z3.IntSort(), z3.IntSort())
+        st.whole = e.int('level_of_the_whole_set')
+        st.has_whole = e.bool('order_names_the_whole_set')
+        zz = lambda i: i if is_z3(i) else z3.IntVal(i)
+        c = self
+
+        class Map:
+            def sym_getitem(s_, I2, key):
+                if key is st.key_whole:
+                    if I2.e.branch(st.has_whole, 'whole set has a level'):
+                        return st.whole
+                    I2.raise_('KeyError', 'frozenset')
+                if isinstance(key, SymObj) and key.cls == 'Src18':
+                    return st.Lv(key.fields['i'])
+                raise Unsupported(f'levels_map[{key!r}]')
+
+        st.members = FnView(st.n, lambda i: SymObj('Src18', i=zz(i)), tag='members of the source set')
+        st.key_whole = SymObj('WholeSet18')
+        st.self = SymObj('VariantSourceSet', levels_map=Map(), levels=[])
+        st.args = [st.self]
+        st.kwargs = dict(sort=True) if e.branch(e.bool('sort_given'), 'sort=True given') else {}
+        self._cur = st
+        return st
+
+    @property
+    def models(self):
+        c = self
+
+        def inst(reg):
+            reg.set_hooks.append(lambda v: (lambda I, v: c._cur.key_whole) if v is c._cur.self or v is c._cur.members else None)
+            reg.protocol_('VariantSourceSet', '__iter__', lambda I, o: c._cur.members)
+
+            def list_hook(I, a, k):
+                l = _Levels18(a[0])
+                c._cur.made.append(l)
+                return l
+            reg.list_hook = list_hook
+        return (inst,)
+
+    def post_return(self, I, st, ret):
+        e = I.e
+        ok = isinstance(ret, _Levels18)
+        e.prove('C18/to_int/a-list-sorted-after-it-was-made', ok and ret.sorted)
+        if not ok:
+            return
+        src = ret.src
+        if isinstance(src, (set, frozenset, list)):
+            items = list(src)
+            e.prove('C18/to_int/the-level-of-the-whole-set-alone-when-the-order-names-it', z3.And(st.has_whole, items[0] == st.whole) if len(items) == 1 else False)
+        else:
+            k = z3.Int('k_member')
+            good = isinstance(src, View)
+            e.prove('C18/to_int/otherwise-the-levels-of-all-members',
+                    z3.And(z3.Not(st.has_whole), src.length() == st.n, z3.ForAll([k], z3.Implies(z3.And(0 <= k, k < st.n), src.get(k) == st.Lv(k)))) if good else False)
+
+
+# ----------------------------------------------------------------------------
+# mergeFasta --dedup-header
+# ----------------------------------------------------------------------------
+VPP18 = 'moPepGen/aa/VariantPeptidePool.py'
+
+
+class _Entry18:
+    def __init__(self, owner, i):
+        self.owner, self.i = owner, i
+
+    def sym_method(self, I, name, a, k):
+        if name == 'rsplit' and list(a) == ['|', 1]:
+            # [everything before the last '|', the index behind it]
+            return [SymObj('UKey18', code=self.owner._cur.KEY(self.i)), SymObj('Idx18', of=self.i)]
+        raise Unsupported(f'entry.{name}{tuple(a)}')
+
+
+class _Kept18:
+    """entries = {}: unversioned key -> the first entry with that key (the keys seen before entry k are a spec function of k)"""
+    def __init__(self, owner):
+        self.owner = owner
+
+    def sym_contains(self, I, key):
+        st = self.owner._cur
+        if not (isinstance(key, SymObj) and key.cls == 'UKey18'):
+            # looked up under something else than the text before the index: a key under which nothing was stored by a correct run
+            I.e.prove('C18/dedup/entries-are-looked-up-under-their-text-before-the-index', False)
+            return I.e.bool('found_under_another_key')
+        return st.SEEN(st.k, key.fields['code'])
+
+    def sym_setitem(self, I, key, v):
+        self.owner._cur.log.append(('store', key, v))
+
+    def sym_method(self, I, name, a, k):
+        if name == 'values':
+            return SymObj('KeptValues18')
+        raise Unsupported(f'entries.{name}')
+
+
+@register
+class RemoveRedundantHeaders(Contract):
+    """--dedup-header: of the header entries of a peptide exactly those are kept that are the first with their text before the last '|'
+    (the entry without its index), in their order; the new header joins them with the delimiter the old one was split on and becomes
+    description, id and name; no entry is dropped unless an earlier entry of the same peptide says the same"""
+    path, qualname, props = VPP18, 'VariantPeptidePool.remove_redundant_headers', ('C18',)
+    assumptions = ("assumed: str.split / str.join with the pool's delimiter are inverse on header entries; entry.rsplit('|', 1) separates the index",
+                   'the dictionary of kept entries is read as the spec predicate SEEN(k, x): some entry before entry k was stored under the text x')
+
+    def setup(self, I):
+        e = I.e
+        st = types.SimpleNamespace(log=[], k=z3.IntVal(0))
+        st.np, st.n = e.int('n_peptides'), e.int('n_entries')
+        e.assume(z3.And(st.np >= 0, st.n >= 1))
+        st.KEY = z3.Function('unversioned_text_of_entry', z3.IntSort(), z3.IntSort())
+        st.SEEN = z3.Function('text_seen_before_entry', z3.IntSort(), z3.IntSort(), z3.BoolSort())
+        # SEEN(k, x) stands for "some entry before entry k has the text x"; its defining equations are not needed for the per-entry
+        # obligations, so it stays uninterpreted and a wrong body is refuted with a model
+        zz = lambda i: i if is_z3(i) else z3.IntVal(i)
+        st.entries = FnView(st.n, lambda i: _Entry18(self, zz(i)), tag='header entries')
+        st.delim = SymObj('Delim18')
+        c = self
+
+        class Desc:
+            def sym_method(s_, I2, name, a, k):
+                if name == 'split' and a and a[0] is st.delim:
+                    return st.entries
+                raise Unsupported(f'description.{name}')
+        st.peptide = SymObj('Peptide18', description=Desc(), id=None, name=None)
+        st.pool = SymObj('VariantPeptidePool', peptides=FnView(st.np, lambda i: st.peptide, tag='peptides'), peptide_delimeter=st.delim)
+        st.args = [st.pool]
+        self._cur = st
+        return st
+
+    @property
+    def models(self):
+        c = self
+
+        def inst(reg):
+            reg.method_('Delim18', 'join', lambda I, o, a, k: SymObj('Header18', of=a[0]))
+            for nm in ('description', 'id', 'name'):
+                reg._setattr[('Peptide18', nm)] = (lambda nm: lambda I, o, v: c._cur.log.append(('set', nm, v)))(nm)
+        return (inst,)
+
+    # loop 0: peptides; loop 1: entries of one peptide
+    def havoc0(self, I, env, k):
+        pass
+
+    def head0(self, I, env, k):
+        self._cur.mark0 = len(self._cur.log)
+
+    def step0(self, I, env, k):
+        st = self._cur
+        sets = [x for x in st.log[st.mark0:] if x[0] == 'set']
+        ok = sorted(x[1] for x in sets) == ['description', 'id', 'name'] and all(isinstance(x[2], SymObj) and x[2].cls == 'Header18' and isinstance(x[2].fields['of'], SymObj)
+                                                                                  and x[2].fields['of'].cls == 'KeptValues18' for x in sets)
+        return [('description-id-and-name-become-the-kept-entries-joined-with-the-delimiter', ok)]
+
+    def havoc1(self, I, env, k):
+        env['entries'] = _Kept18(self)
+        self._cur.k = k
+
+    def head1(self, I, env, k):
+        self._cur.mark1 = len(self._cur.log)
+        self._cur.k = k
+
+    def step1(self, I, env, k):
+        st = self._cur
+        stores = [x for x in st.log[st.mark1:] if x[0] == 'store']
+        first = z3.Not(st.SEEN(k, st.KEY(k)))
+        if not stores:
+            return [('an-entry-is-dropped-only-if-an-earlier-one-has-the-same-text-before-the-index', z3.Not(first))]
+        ok = len(stores) == 1 and isinstance(stores[0][2], _Entry18) and isinstance(stores[0][1], SymObj) and stores[0][1].cls == 'UKey18'
+        return [('the-first-entry-with-a-text-is-kept-under-that-text', z3.And(first, stores[0][2].i == k, stores[0][1].fields['code'] == st.KEY(k)) if ok else False)]
+
+    @property
+    def loops(self):
+        U = dict(target_after='unknown')
+        return {0: LoopSpec(inv=lambda I, env, k: [], havoc=self.havoc0, on_head=self.head0, step=self.step0,
+                            on_break=lambda I, env, k: [('every-peptide-is-visited', False)], on_exit=lambda I, env, n: [('all-peptides-were-visited', n == self._cur.np)], **U),
+                1: LoopSpec(inv=lambda I, env, k: [], havoc=self.havoc1, on_head=self.head1, step=self.step1,
+                            on_break=lambda I, env, k: [('every-entry-is-visited', False)], on_exit=lambda I, env, n: [('all-entries-were-visited', n == self._cur.n)], **U)}
+
+
 NATIVE = []
